@@ -15,14 +15,14 @@ def budget(tier, q=QUICK_JOB_BUDGET, t=THOROUGH_JOB_BUDGET):
 
 def wf(prop, graph, items, buf, mx, kind="func", mode="dpor", oracles=(), events_dep=True, tier="quick", **kw):
     scen = {"graph": graph, "items": items, "buf": buf, "max": mx, "kind": kind}
-    for k in ("cores", "extra"):
+    for k in ("cores", "extra", "abs_src"):
         if k in kw:
             scen[k] = kw.pop(k)
     jid = kw.pop("id", None) or f"{prop}-{graph}-i{items}-b{buf}-m{mx}-{kind}-{mode}" + (f"-c{''.join(map(str, scen.get('cores', [])))}" if scen.get("cores") else "") + (f"-d{kw.get('delay')}" if mode == "delay" else "")
     job = {"id": jid, "prop": prop, "scen": scen, "mode": mode, "budget": kw.pop("budget", budget(tier)), "oracles": list(oracles), "events_dep": events_dep, "force_all": -1}
     job.update(kw)
     # scenarios that can also be run natively (real runtime, real bash, un-instrumented scipipe)
-    if graph not in ("tasks", "slots", "gjoin", "gjoin2") and mode == "dpor" and not job.get("crash") and not job.get("race") and scen.get("extra") in (None, "", "recorder", "subdir", "emptyparam-setout", "prepend") \
+    if graph not in ("tasks", "slots", "gjoin", "gjoin2") and mode == "dpor" and not job.get("crash") and not job.get("race") and not scen.get("abs_src") and scen.get("extra") in (None, "", "recorder", "subdir", "emptyparam-setout", "prepend") \
             and not job.get("seed_dir") and job.get("omit_edge") is None and not job.get("omit_fromstr") and not job.get("drop_proc") and not job.get("force_order") and not job.get("fault") and not job.get("external"):
         # (failing runs are not compared natively: os.Exit does not kill the task's child processes,
         # which the model's process-group kill does)
@@ -356,9 +356,12 @@ def plan_c08(tier, seed):
     for size, mx in ((1, 4),) if tier == "quick" else ((1, 4), (65537, 4)):
         jobs.append({"id": f"C08-stream-order-s{size}-m{mx}", "prop": "C08", "kind": "stream", "mode": "delay", "delay": 1, "budget": budget(tier, 40, 300), "oracles": [], "events_dep": False, "force_all": -1,
                      "args": {"n": "2", "size": str(size), "max": str(mx), "spy": "1", "only_order": "1"}})
+    # a joined in-port fed with two sub-stream carriers whose sub-streams may be closed in either order
+    jobs.append(with_delay_fallback({"id": "C08-joined-port-two-substreams", "prop": "C08", "kind": "comp", "mode": "dpor", "budget": budget(tier, 30, 300), "oracles": [], "events_dep": False, "force_all": -1,
+                                     "args": {"comp": "joinorder", "buf": "1"}}, 1))
     jobs.extend(mem_jobs("C08", o, tier, [("g2", 2, 2), ("g5b", 1, 2)] if tier == "quick" else [("g2", 2, 2), ("g5b", 1, 2), ("g3", 2, 2), ("g2", 3, 2)], extra="recorder"))
     return {"level": "model_checking", "native": True, "race_too": True, "stages": [lambda ctx, prev: jobs],
-            "rule": "every Mazurkiewicz trace (task completion order is just scheduling); a recorder process reads the observed out-port; emitted sequence == reference arrival order (single upstream) / per-upstream subsequences keep their order (fan-in); streaming out-port: 2 items in flight through real FIFOs, order noted by a pass-through process (<= 1 delay); memory-level pass: some scenarios again on the race-instrumented build, where map operations and accesses to mutable struct fields are scheduling points too",
+            "rule": "every Mazurkiewicz trace (task completion order is just scheduling); a recorder process reads the observed out-port; emitted sequence == reference arrival order (single upstream) / per-upstream subsequences keep their order (fan-in); streaming out-port: 2 items in flight through real FIFOs, order noted by a pass-through process (<= 1 delay); joined in-port fed with two sub-stream carriers closed in either order; memory-level pass: some scenarios again on the race-instrumented build, where map operations and accesses to mutable struct fields are scheduling points too",
             "assumptions": BASE_ASSUMPTIONS}
 
 
@@ -611,6 +614,8 @@ def plan_c09(tier, seed):
         for (p, mt) in fault_targets("g3", 1):
             for fk in ("exit-mid", "missing"):
                 add("g3", 1, 1, 1, "func", p, mt, fk)
+        for (p, mt) in fault_targets("g3", 1) + fault_targets("g7", 1):
+            add("g3" if (p, mt) in fault_targets("g3", 1) else "g7", 1, 1, 2, "func", p, mt, "panic-mid")
         for (p, mt) in fault_targets("g7", 1):
             for fk in ("exit-mid", "exit-after", "missing", "missing-last"):
                 add("g7", 1, 1, 2, "cmd", p, mt, fk)
@@ -622,12 +627,13 @@ def plan_c09(tier, seed):
                 for fk in FAULT_KINDS:
                     for kind in ("cmd", "func"):
                         add(g, i, 1, m, kind, p, mt, fk)
+                add(g, i, 1, m, "func", p, mt, "panic-mid")
     # tasks that cannot be formed
     for extra in ("emptyparam", "badpath", "missingtag", "missingtag-setout", "missingparam-setout"):
         for kind in ("cmd", "func"):
             jobs.append(wf("C09", "g8", 2, 1, 2, kind, oracles=["nohang", "c09-unformed"], tier=tier, events_dep=False, extra=extra, id=f"C09-g8-{extra}-{kind}"))
     return {"level": "fault_enumeration", "stages": [lambda ctx, prev: jobs],
-            "rule": "every choice of failing task x failure kind {exit before / mid / after writing, killed, declared output missing} + tasks that cannot be formed {empty parameter value, invalid output path, missing tag in the command, missing tag / unknown parameter in the output-path pattern}, each under every Mazurkiewicz trace of the concurrently running rest (DPOR closed, delay bound 2 otherwise); non-trivial = distinct (fault case, terminal outcome) pairs in which the fault changed the outcome",
+            "rule": "every choice of failing task x failure kind {exit before / mid / after writing, killed, declared output missing, run-time panic inside a Go function} + tasks that cannot be formed {empty parameter value, invalid output path, missing tag in the command, missing tag / unknown parameter in the output-path pattern}, each under every Mazurkiewicz trace of the concurrently running rest (DPOR closed, delay bound 2 otherwise); non-trivial = distinct (fault case, terminal outcome) pairs in which the fault changed the outcome",
             "assumptions": BASE_ASSUMPTIONS + ["failures are injected at the exec seam (command result) or raised by the Go function through scipipe.Failf"]}
 
 
@@ -682,6 +688,8 @@ def plan_c01(tier, seed):
                     for kind in (("cmd",) if tier == "quick" else ("cmd", "func")):
                         jobs.append(with_delay_fallback(wf("C01", g, i, 1, m, kind, oracles=o, tier=tier, events_dep=False, crash=True, disk_dep=(m == 1),
                                                            fault={"proc": p, "match": mt, "kind": fk}, id=f"C01-fault-{g}-i{i}-m{m}-{kind}-{p}-{mt}-{fk}")))
+                jobs.append(with_delay_fallback(wf("C01", g, i, 1, m, "func", oracles=o, tier=tier, events_dep=False, crash=True, disk_dep=(m == 1),
+                                                   fault={"proc": p, "match": mt, "kind": "panic-mid"}, id=f"C01-fault-{g}-i{i}-m{m}-func-{p}-{mt}-panic-mid")))
         jobs.append(wf("C01", "g2", 1, 1, 1, "func", oracles=o + ["clean"], tier=tier, events_dep=False, crash=True, disk_dep=True, extra="writeidiom", id="C01-gofunc-write-idiom"))
         # environment deviation: the absolute destination is on another device, rename(2) answers EXDEV
         jobs.append(with_delay_fallback(wf("C01", "g2", 1, 1, 1, "cmd", oracles=o, tier=tier, events_dep=False, crash=True, disk_dep=True, extra="absout", xdev="abs", id="C01-crash-absout-other-device")))
@@ -691,7 +699,7 @@ def plan_c01(tier, seed):
             jobs.append(with_delay_fallback(wf("C01", "gsplit1", 2, 1, 2, "func", oracles=o + ["clean"], tier=tier, events_dep=False, crash=True, disk_dep=False, id="C01-crash-filesplitter-2files")))
         return jobs
     return {"level": "fault_enumeration", "stages": [stage1],
-            "rule": "crash points: the disk after EVERY file-system mutation (partial writes, each rename, each step of temp-dir removal) of every explored schedule (one task in flight: FS mutations globally dependent, closed; two in flight: path-dependent DPOR + delay bound) x fault kinds {exit before/mid/after writing, killed, output missing} per task; + an absolute destination on another device (rename answers EXDEV); state predicate on every such disk: a declared output that exists holds the complete reference bytes and its task ended successfully, every other new data file is below a _scipipe_tmp* directory; distinct_nontrivial = distinct crash states + distinct (fault, outcome) pairs",
+            "rule": "crash points: the disk after EVERY file-system mutation (partial writes, each rename, each step of temp-dir removal) of every explored schedule (one task in flight: FS mutations globally dependent, closed; two in flight: path-dependent DPOR + delay bound) x fault kinds {exit before/mid/after writing, killed, output missing, run-time panic of a Go function after half of its output} per task; + an absolute destination on another device (rename answers EXDEV); state predicate on every such disk: a declared output that exists holds the complete reference bytes and its task ended successfully, every other new data file is below a _scipipe_tmp* directory; distinct_nontrivial = distinct crash states + distinct (fault, outcome) pairs",
             "assumptions": BASE_ASSUMPTIONS + ["kill = process-group kill: completed syscalls persist (no power-loss model)", "the .audit.json side-car and parent directories created at the final location are not 'output files' in the statement's sense"],
             "distinct_nontrivial_fn": lambda rs: sum((r.get("distinct_crash_states") or 0) + (r.get("distinct_outcomes") or 0) for r in rs)}
 
